@@ -1,0 +1,11 @@
+//go:build verif
+
+package batched
+
+import "github.com/cloudflare/pat-go/tokens"
+
+// VerifRequests exposes the decoded request list of a BatchedTokenRequest to
+// the model-based verification harness (build tag "verif").
+func (r *BatchedTokenRequest) VerifRequests() []tokens.TokenRequestWithDetails {
+	return r.token_requests
+}
